@@ -30,9 +30,30 @@ def asp_items(g, ft, pr):
             raise Untranslatable(f'frequency vectors: {u(ge)}')
         env = local_env(fn)
         (ret,) = find_returns(fn)
+        ret_name = None
+        if isinstance(ret, ast.Name) and ret.id in env:
+            ret_name, ret = ret.id, env[ret.id]
         if not (isinstance(ret, ast.Call) and u(ret.func).endswith('outer') and len(ret.args) == 2):
             raise Untranslatable(f'return value {u(ret)}')
         rows, cols = u(ret.args[0]), u(ret.args[1])
+        # is the exponential applied to EVERY frequency sample?  Any element-wise overwrite of the returned array or of
+        # its two factors (subscript store, in-place op on a subscript), or a masking / clipping call, says no.
+        watched = {x for x in (ret_name, rows, cols) if x}
+        masked = []
+        for node in ast.walk(fn):
+            tgts = []
+            if isinstance(node, ast.Assign):
+                tgts = node.targets
+            elif isinstance(node, ast.AugAssign):
+                tgts = [node.target]
+            for t in tgts:
+                if isinstance(t, ast.Subscript) and isinstance(t.value, ast.Name) and t.value.id in watched:
+                    masked.append(u(node))
+                if isinstance(node, ast.AugAssign) and isinstance(t, ast.Name) and t.id in watched:
+                    masked.append(u(node))
+            if isinstance(node, ast.Call) and u(node.func).split('.')[-1] in (
+                    'where', 'clip', 'putmask', 'copyto', 'place', 'select', 'piecewise', 'nan_to_num', 'minimum', 'maximum'):
+                masked.append(u(node))
         out = {}
         for nm in (rows, cols):
             ex = env[nm]
@@ -71,12 +92,16 @@ def asp_items(g, ft, pr):
                 f'def aspCoef {{K : Type}} [Num K] (wvl z : K) : K := {out[rows][1]}\n'
                 f'def aspSignRows : Int := {out[rows][0]}\ndef aspSignCols : Int := {out[cols][0]}\n'
                 f'/-- which component of `samples` gives the frequency vector of the rows / columns of `outer(tfy, tfx)` -/\n'
-                f'def aspRowsSamplesIdx : Nat := {out[rows][2]}\ndef aspColsSamplesIdx : Nat := {out[cols][2]}')
+                f'def aspRowsSamplesIdx : Nat := {out[rows][2]}\ndef aspColsSamplesIdx : Nat := {out[cols][2]}\n'
+                f'/-- the returned array is `outer(exp(..), exp(..))` untouched: no sample is overwritten, masked or clipped'
+                f'{" -- found: " + "; ".join(masked)[:200] if masked else ""} -/\n'
+                f'def aspTfAppliedToEverySample : Bool := {"false" if masked else "true"}')
     g.item('asp.tf', 'prysm/propagation.py:angular_spectrum_transfer_function',
            lambda: get_def(pr, 'angular_spectrum_transfer_function'), tf,
            'def aspCoef {K : Type} [Num K] (wvl z : K) : K := (wvl / Num.ofInt 1000) * z\n'
            'def aspSignRows : Int := -1\ndef aspSignCols : Int := -1\n'
-           'def aspRowsSamplesIdx : Nat := 0\ndef aspColsSamplesIdx : Nat := 1')
+           'def aspRowsSamplesIdx : Nat := 0\ndef aspColsSamplesIdx : Nat := 1\n'
+           'def aspTfAppliedToEverySample : Bool := true')
 
     def op():
         fn = get_def(pr, 'angular_spectrum')
